@@ -846,8 +846,20 @@ func (c *Client) processPublish(publish *packet.Publish) error {
 
 // handle an incoming p or pubcomp packet
 func (c *Client) processPubackAndPubcomp(id packet.ID) error {
+	// get stored packet from session
+	pkt, err := c.session.LookupPacket(session.Outgoing, id)
+	if err != nil {
+		return c.die(SessionError, err)
+	}
+
+	// ignore acknowledgements that do not answer a packet in flight, they
+	// must not free a dequeue token
+	if pkt == nil {
+		return nil
+	}
+
 	// remove packet from store
-	err := c.session.DeletePacket(session.Outgoing, id)
+	err = c.session.DeletePacket(session.Outgoing, id)
 	if err != nil {
 		return c.die(SessionError, err)
 	}
